@@ -221,6 +221,8 @@ std::vector<std::pair<int,i64>> typed_n()
   for( i64 n : { 6ll, (1ll<<32)+1, 1ll<<62 } ) v.push_back({T_U64, n});
   for( i64 n : { 3ll, 1ll<<40 } ) v.push_back({T_ULL, n});
   for( i64 n : { -5ll, 12ll, (1ll<<32)+1, -((11ll<<32)-1) } ) v.push_back({T_LL, n});
+  for( int t : { T_I8, T_I16, T_I32, T_I64, T_LL } ) { v.push_back({t, -1}); v.push_back({t, 1}); }      // the units: (a * -1) / -1 reaches MIN / -1 of narrow fast paths
+  for( int t : { T_U8, T_U32, T_ULL } ) v.push_back({t, 1});
   return v;
   }
 
